@@ -1,17 +1,27 @@
 #!/bin/bash
-# tools/seeded.sh <seeded-dir-name> [tier]  — apply seeded/<name>/patch.diff to /repo, run the check(s) of the
-# property it breaks, undo the patch.  Prints DETECTED / MISSED.
+# tools/seeded.sh <seeded-dir-name> [tier] [--inplace]
+# Run the check of the property a seeded change breaks against the changed code and report DETECTED / MISSED.
+#   default:   overlay mode — a scratch copy of /repo/mitmproxy with the patch applied shadows /repo for this run only
+#              (safe while other work uses /repo);
+#   --inplace: the prescribed way — git -C /repo apply, run, git -C /repo checkout -- .  (use when nothing else runs)
 set -u
-name="$1"; tier="${2:-quick}"
+name="$1"; tier="${2:-quick}"; mode="${3:-overlay}"
 d="/verif/seeded/$name"
 pid=$(python3 -c "import json;print(json.load(open('$d/meta.json'))['property'])")
-cd /repo
-if ! git diff --quiet; then echo "/repo has uncommitted changes; refusing" >&2; exit 2; fi
-git apply "$d/patch.diff" || { echo "patch does not apply" >&2; exit 2; }
-trap 'git -C /repo checkout -- . ' EXIT
 cd /verif
-out=$(./check "$pid" --tier "$tier" 2>&1); rc=$?
+if [ "$mode" = "--inplace" ]; then
+  if ! git -C /repo diff --quiet; then echo "/repo has uncommitted changes; refusing" >&2; exit 2; fi
+  git -C /repo apply "$d/patch.diff" || { echo "patch does not apply" >&2; exit 2; }
+  trap 'git -C /repo checkout -- . ' EXIT
+  out=$(./check "$pid" --tier "$tier" 2>&1); rc=$?
+else
+  ov="/tmp/seedrun-$name-$$"
+  rm -rf "$ov"; mkdir -p "$ov"; cp -r /repo/mitmproxy "$ov/"; cp -r /repo/test "$ov/" 2>/dev/null
+  (cd "$ov" && patch -s -p1 < "$d/patch.diff") || { echo "patch does not apply" >&2; rm -rf "$ov"; exit 2; }
+  trap 'rm -rf "$ov"' EXIT
+  out=$(VERIF_PYTHONPATH_PREPEND="$ov" VERIF_REPO="$ov" ./check "$pid" --tier "$tier" 2>&1); rc=$?
+fi
 echo "$out" | tail -8
-if [ $rc -eq 1 ] && echo "$out" | grep -q "^VIOLATION property=$pid"; then echo "RESULT $name: DETECTED (exit 1)"; 
+if [ $rc -eq 1 ] && echo "$out" | grep -q "^VIOLATION property=$pid"; then echo "RESULT $name: DETECTED (exit 1)";
 elif [ $rc -eq 3 ]; then echo "RESULT $name: HARNESS-ERROR (exit 3)";
 else echo "RESULT $name: MISSED (exit $rc)"; fi
